@@ -281,6 +281,23 @@ def judge_c05(d):
             if im[3] != mo[3]: what.append("SNI credentials %s instead of %s" % (im[3], mo[3]))
             return "; ".join(what) or "meta differs"
         return None
+    if t[1] in ("tcplive", "quiclive"):
+        how = "TLS over TCP" if t[1] == "tcplive" else "QUIC"
+        sni = t[-1]
+        if t[1] == "quiclive":
+            # the property fixes QUIC connections only through the entry the SNI designates
+            sel = ask_driver(["c05 select " + " ".join(t[2:-1]) + " 1 3 " + sni])[0].strip() if sni != "-" else "refused"
+            if sel == "refused":
+                return None
+        im, mo = impl.split(), model.split()
+        if (impl == "refused") != (model == "refused"):
+            return "live %s connection with SNI %s was %s; the designated entry / common protocol rule gives %s" % (
+                how, sni, "refused" if impl == "refused" else "accepted (" + impl + ")", model)
+        what = []
+        if im[0] != mo[0]: what.append("protocol %s negotiated instead of %s" % (im[0], mo[0]))
+        if im[1] != mo[1]: what.append("the probe request was answered by the %s channel instead of %s" % (im[1], mo[1]))
+        if im[2] != mo[2]: what.append("the certificate presented is that of %s instead of %s" % (im[2], mo[2]))
+        return "live %s connection with SNI %s: %s" % (how, sni, "; ".join(what) or "observation differs")
     if t[1] == "run":
         return "a selection in a reload history was not answered from the configuration installed by the last successful reload: got %s expected %s" % (impl[:200], model[:200])
     return None
@@ -654,7 +671,8 @@ PROPS = {
         assumptions=["reads are exact-size pulls, so segmentation of the server's bytes cannot matter: exercised, not proved beyond the pull structure"],
     ),
     "C05": dict(
-        suites=["c05"],
+        retry_on_failure=True,
+        suites=["c05", "c05live"],
         judge=judge_c05,
         level="proof",
         rule="150 (thorough 1500) host configurations over names with dot-suffix overlaps and alternative SNIs of the form <l>.<main>, "
@@ -663,12 +681,19 @@ PROPS = {
              "non-UTF-8, H2}, random pairs/triples - through the real TlsDemux::new (real PEM files, one per host entry so that the "
              "certificate path identifies the entry) and select; reload histories (valid, duplicate names, empty main, unloadable "
              "certificate) on a live Core; 4 threads selecting during alternating reloads"
-             " Every pair of host classes sharing a name (16 pairs) must be refused at build time and at reload",
+             " Every pair of host classes sharing a name (16 pairs) must be refused at build time and at reload."
+             " Live part (suite c05live, wall clock): the real Core::listen (TCP and QUIC) on a loopback port with four host entries that "
+             "have four different certificates, for 2 (thorough 4) sets of enabled protocols, before and after a hot reload that trades "
+             "names between classes: rustls clients over TCP (10 SNI forms incl. none, alternative, <credentials>.<host>, unknown; 10 ALPN "
+             "lists incl. none, h3 on TCP, unknown) and quiche clients over QUIC observe the certificate presented, the protocol "
+             "negotiated and which channel answers a probe request (tunnel -> scripted forwarder refuses -> 502, ping -> 200, speedtest -> "
+             "400, reverse proxy -> the origin's answer); compared with tcpAccept / quicAccept of the model",
         explanation="theorems select_designated_host, no_entry_refused, exact_name_own_class, protocol_is_best_common, "
-                    "common_protocol_accepted, default_only_when_no_alpn, unknown_alpn_ignored, tcp_never_h3, reload_* about TT/Model/Demux.lean",
-        trusted=["rustls / BoringSSL present the certificate chain whose path select returned (not modelled)",
+                    "common_protocol_accepted, default_only_when_no_alpn, unknown_alpn_ignored, tcp_never_h3, quic_always_h3, "
+                    "quic_designated_host, quic_unknown_sni_is_bootstrap, reload_* about TT/Model/Demux.lean",
+        trusted=["rustls / BoringSSL present the certificate chain whose path select returned: not modelled, observed by the live suite",
                  "std RwLock gives each select one consistent TlsDemux (exercised by the concurrent suite, not proved)",
-                 "QUIC SNI callback uses the same select (read, not driven)"],
+                 "on QUIC the first main host (bootstrap) is a hash-map iteration order: the live suite has one main host"],
         assumptions=["an alternative SNI listed for two main hosts is resolved by HashMap iteration order: generator keeps them unique"],
     ),
     "C13": dict(
